@@ -108,6 +108,28 @@ Fixpoint model_results (s : cstate) (ops : list cop) : list val :=
       let (h, e) := sample_of s1 in
       VL [of_copres r; of_list VN wk; h; e] :: model_results s1 t
   end.
+(* C08 leaves open how much of a buffer one `write` accepts ("at least one byte"): where the implementation
+   reports that it accepted MORE than the model's write would (up to the whole buffer), the model follows
+   it -- the bytes are taken as by a write_all of that prefix -- so that everything after stays comparable.
+   The count itself is then reported as Ok(n) with the implementation's n. *)
+Fixpoint model_results_following (s : cstate) (ops : list cop) (obs : list val) : list val :=
+  match ops with
+  | [] => []
+  | o :: t =>
+      let ob := match obs with x :: _ => Some x | [] => None end in
+      let '(s1, r, wk) := cstep s o in
+      let '(s1, r, wk) :=
+        match o, r, ob with
+        | OWrite d, RWrite (Some n), Some (VL (VL [VN 0; VN n'] :: _)) =>
+            if (n <? n') && (n' <=? lenN d) then
+              let '(s2, r2, wk2) := cstep s (OWriteAll (firstn (N.to_nat n') d)) in
+              match r2 with RIo true => (s2, RWrite (Some n'), wk2) | _ => (s1, r, wk) end
+            else (s1, r, wk)
+        | _, _, _ => (s1, r, wk)
+        end in
+      let (h, e) := sample_of s1 in
+      VL [of_copres r; of_list VN wk; h; e] :: model_results_following s1 t (tl obs)
+  end.
 
 Definition F_S_HDRS := bs "hdrs".
 Definition F_S_WRITER := bs "writer".
@@ -498,7 +520,7 @@ Definition run_stream (v : val) : val :=
                 ++ cmp_field F_S_HDR_CE (hdr_vals_s (bs "content-encoding") (model_hdrs i)) (hdr_vals_s (bs "content-encoding") ohdrs)
                 ++ cmp_field F_S_WRITER (of_bool (has_writer i)) ow
                 ++ cmp_field F_S_HINT0 mh0 oh0 ++ cmp_field F_S_EOS0 me0 oe0 in
-              let mres := model_results s0 (s_ops i) in
+              let mres := model_results_following s0 (s_ops i) ores in
               let gz_part :=
                 if gz && has_writer i then
                   match s_gz i with
